@@ -521,6 +521,8 @@ class Gen:
                 continue
             if rx.first(sem) & set(avoid):
                 continue
+            if rx.has_empty_set(tree):
+                continue        # known finding K1 (late mismatch with an unsatisfiable class) belongs to C07
             return N("rx", tree=tree, binary=binary)
         return self.literal(avoid)
 
@@ -670,7 +672,8 @@ class Gen:
             if s is None:
                 continue
             if self.p["no_action_after_open"] and s.kind in ACTION_KINDS and prev_open:
-                continue
+                if prev_open is True or s.kind not in STRICT_KINDS:
+                    continue
             stmts.append(s)
             if s.kind in ACTION_KINDS:
                 # actions neither consume nor change what the next match must avoid
@@ -708,7 +711,7 @@ class Gen:
             if ctx["loops"]:
                 choices.append(("break", max(w["break_"], 4)))
         kind = self.pick(choices)
-        strict_ok = (not prev_open) or rng.random() < self.p["strict_after_open"]
+        strict_ok = (not prev_open or prev_open == 2) or rng.random() < self.p["strict_after_open"]
         if kind == "match":
             p = self.pattern(avoid, allow_end=True)
             sem = pat_sem(p)
@@ -743,7 +746,9 @@ class Gen:
                 body[0] = N("match", p=self.literal(avoid))
                 o, po = (set(), False) if len(body) == 1 else (o, po)
             firstsem = self.first_of(body)
-            return N("optional", body=body), set(o) | set(avoid) | firstsem, po or True, False
+            # 2 = "soft open": the optional's end is found by lookahead. Timing-strict actions after it are scheduled exactly once
+            # (or refused); plain assignments would be applied eagerly, also on the path that then takes the optional
+            return N("optional", body=body), set(o) | set(avoid) | firstsem, po or 2, False
         if kind == "loop":
             self.nloop += 1
             label = "l%d" % self.nloop if rng.random() < 0.5 else None
@@ -868,7 +873,7 @@ class Gen:
             else:
                 body, o, po = [], av, last_open
                 if rng.random() < 0.5 and not last_open:
-                    body = [self.action(ctx, strict_ok=True, after_match=True)]
+                    body = [self.action(ctx, strict_ok=True, after_match="else" not in preds)]
             if self.p["no_action_after_open"] and last_open and body and body[0].kind in ACTION_KINDS:
                 body.insert(0, N("match", p=self.literal(av)))
             if force_break and i == ncl - 1 and not any(self.has_break(cl.body) for cl in clauses):
